@@ -230,5 +230,6 @@ def check(tier):
             ck.add_mutant(name, m, "s", "harness.C18", "sensitivity_job", dict(cases=[(2, "fourth_order_central_difference", 0)]), fresh=True)
         else:
             ck.add_mutant(name, m, "s", "harness.C18", "sensitivity_job", dict(cases=[(2, "central_difference", 0)]), fresh=True)
+    ck.validate = ['sensitivity']
     ck.run()
     return ck.finish(replay=REPLAY)
